@@ -315,12 +315,18 @@ func scratchBase() string {
 	return "/dev/shm"
 }
 
+// AuthOverride, when non-nil, replaces the harness authentication handler of the next worlds (C16 uses the real stores).
+var AuthOverride wasp.AuthenticationHandler
+
 // NewWorld builds n nodes. Must be called inside a synctest bubble.
 func NewWorld(t *testing.T, n int, opts ...NodeOpts) *World {
 	dir := filepath.Join(scratchBase(), fmt.Sprintf("world-%d-%d", os.Getpid(), worldCounter.Add(1)))
 	os.MkdirAll(dir, 0o755)
 	w := &World{T: t, Dir: dir, SessionOf: map[string]string{}, unreachable: map[[2]uint64]bool{}, GossipAuto: true}
 	w.Auth = &harnessAuth{w: w}
+	if AuthOverride != nil {
+		w.Auth = AuthOverride
+	}
 	w.oldClock = distributed.VerifSetClock(func() int64 {
 		// strictly increasing; follows virtual time
 		now := time.Now().UnixNano()
